@@ -412,8 +412,7 @@ PROPS = {
         switches=[("Bug_NoNotify", CONC, "MC_RainConc_small.cfg", "AllWritersReturn"),
                   ("Bug_HoldRequestAcrossMerge", "MC_RainManual.tla", "MC_RainManual.cfg", "Deadlock"),
                   ("Bug_NotifyOne", "MC_RainManual.tla", "MC_RainManual.cfg", "NoLostWaiter"),
-                  ("Bug_NoRescheduleAtEnd", "MC_RainManual.tla", "MC_RainManual.cfg", "NoLostWaiter"),
-                  ("Bug_SlotNotCleared", "MC_RainManual.tla", "MC_RainManual.cfg", "EveryCallReturns")],
+                  ("Bug_NoRescheduleAtEnd", "MC_RainManual.tla", "MC_RainManual.cfg", "NoLostWaiter")],
         work=[dict(driver="live", args=["--ops", "150"], quick=16, thorough=400, trace=CONC_TRACE,
                    final_rc3=True),
               dict(driver="sched", args=["--all"], quick=1, thorough=6, trace=CONC_TRACE,
